@@ -2,10 +2,10 @@ CONSTANT P = 13
 CONSTANT NS = 2
 CONSTANT InitOn = "last"
 CONSTANT Disabled = "none"
-CONSTANT MaxLen = 3
+CONSTANT MaxLen = 2
 CONSTANT OutVals = {0, 1}
 CONSTANT Vals = {0, 1, 2}
-CONSTANT LuRows = {1}
+CONSTANT LuRows = {1, 2}
 CONSTANT Mode = "single"
 INIT Init
 NEXT Next
